@@ -10,8 +10,18 @@ static inline void qhash_addData(qhash *h, qbytes b) { *h = HASH_ADD(*h, b); }
 static inline qbytes qhash_result(qhash h) { return __CPROVER_uninterpreted_hash_result(h); }
 
 long long nondet_longlong(void);
-int gh_dev_writes; qbytes gh_dev_w_data; long long gh_dev_w_ret; QIODevice *gh_dev_w_dev;   /* log of QIODevice::write */
-int gh_dev_reads; long long gh_dev_r_max; qbytes gh_dev_r_ret; QIODevice *gh_dev_r_dev;     /* log of QIODevice::read  */
+/* ghost logs are grouped in a few structs: a contract names one assigns target per log (dfcc checks every assignment against
+   every target) */
+struct gh_devw_s { int writes; qbytes data; long long ret; QIODevice *dev; } gh_devw;   /* log of QIODevice::write */
+struct gh_devr_s { int reads; long long max; qbytes ret; QIODevice *dev; } gh_devr;      /* log of QIODevice::read  */
+#define gh_dev_writes gh_devw.writes
+#define gh_dev_w_data gh_devw.data
+#define gh_dev_w_ret gh_devw.ret
+#define gh_dev_w_dev gh_devw.dev
+#define gh_dev_reads gh_devr.reads
+#define gh_dev_r_max gh_devr.max
+#define gh_dev_r_ret gh_devr.ret
+#define gh_dev_r_dev gh_devr.dev
 static inline long long QIODevice_write(QIODevice *dev, qbytes data) {
   long long w = nondet_longlong();
   __CPROVER_assume(w >= -1 && w <= (long long)qbytes_size(data));
@@ -39,16 +49,30 @@ static inline void QXmppIbbDataIq_ctor(QXmppIbbDataIq *q) { QXmppIq_ctor_type(&q
 
 
 /* ------------------------------------------------------------------ event log: packets handed to QXmppClient::sendPacket */
-int gh_sent;                /* number of packets sent (saturating) */
-int gh_sent_kind;           /* last packet: 1 plain IQ, 2 IBB data, 3 IBB close */
-qstr gh_sent_to, gh_sent_id, gh_sent_sid; int gh_sent_type, gh_sent_err_type, gh_sent_err_cond;
-quint16 gh_sent_seq; qbytes gh_sent_payload;
+struct gh_ev_s {
+  int sent;                 /* number of packets sent (saturating) */
+  int kind;                 /* last packet: 1 plain IQ, 2 IBB data, 3 IBB close */
+  qstr to, id, sid; int type, err_type, err_cond; quint16 seq; qbytes payload;
+} gh_ev;
+struct gh_inv_s { int invoked; const void *obj; qstr method; } gh_inv;     /* queued invocations (QMetaObject::invokeMethod) */
+#define gh_sent gh_ev.sent
+#define gh_sent_kind gh_ev.kind
+#define gh_sent_to gh_ev.to
+#define gh_sent_id gh_ev.id
+#define gh_sent_sid gh_ev.sid
+#define gh_sent_type gh_ev.type
+#define gh_sent_err_type gh_ev.err_type
+#define gh_sent_err_cond gh_ev.err_cond
+#define gh_sent_seq gh_ev.seq
+#define gh_sent_payload gh_ev.payload
+#define gh_invoked gh_inv.invoked
+#define gh_invoked_obj gh_inv.obj
+#define gh_invoked_method gh_inv.method
 static inline void ev_send_base(int kind, const QXmppIq *q) { if (gh_sent < 1000) gh_sent++; gh_sent_kind = kind; gh_sent_to = q->to; gh_sent_id = q->id; gh_sent_type = q->type; gh_sent_err_type = q->error.type; gh_sent_err_cond = q->error.condition; }
 static inline bool ev_send_iq(const QXmppIq *q) { ev_send_base(1, q); gh_sent_sid = 0; gh_sent_seq = 0; gh_sent_payload = 0; return nondet_bool(); }
 static inline bool ev_send_data(const QXmppIbbDataIq *q) { ev_send_base(2, &q->base); gh_sent_sid = q->m_sid; gh_sent_seq = q->m_seq; gh_sent_payload = q->m_payload; return nondet_bool(); }
 static inline bool ev_send_close(const QXmppIbbCloseIq *q) { ev_send_base(3, &q->base); gh_sent_sid = q->m_sid; gh_sent_seq = 0; gh_sent_payload = 0; return nondet_bool(); }
 /* queued invocations (QMetaObject::invokeMethod(obj, "name", Qt::QueuedConnection)) */
-int gh_invoked; const void *gh_invoked_obj; qstr gh_invoked_method;
 static inline bool ev_invoke(const void *obj, qstr method) { if (gh_invoked < 1000) gh_invoked++; gh_invoked_obj = obj; gh_invoked_method = method; return true; }
 
 /* ------------------------------------------------------------------ A-JOBLIST: the manager's job list with a witness element
@@ -64,22 +88,61 @@ static inline QXmppTransferJob *QListJobs_at(const QListJobs *l, int i) {
 int gh_found_idx;                     /* ghost hook in the lookups: index at which the returned job was found */
 QXmppTransferJob *gh_job;             /* ghost hook in the handlers: the job the lookup returned */
 /* hand-over log, written by the ghost hook at the entry of QXmppTransferIncomingJob::writeData */
-int gh_wd_calls; QXmppTransferJob *gh_wd_job; qbytes gh_wd_data;
+struct gh_wd_s { int calls; QXmppTransferJob *job; qbytes data; } gh_wd;
+#define gh_wd_calls gh_wd.calls
+#define gh_wd_job gh_wd.job
+#define gh_wd_data gh_wd.data
 /* calls of checkData / terminate (ghost hooks at their entries) */
-int gh_cd_calls; QXmppTransferJob *gh_cd_job;
-int gh_term_calls; QXmppTransferJob *gh_term_job; int gh_term_cause;
+struct gh_cd_s { int calls; QXmppTransferJob *job; } gh_cd;
+struct gh_term_s { int calls; QXmppTransferJob *job; int cause; } gh_term;
+#define gh_cd_calls gh_cd.calls
+#define gh_cd_job gh_cd.job
+#define gh_term_calls gh_term.calls
+#define gh_term_job gh_term.job
+#define gh_term_cause gh_term.cause
 
 #define INT_MAX_ 2147483647
-#define JOB_OK(j) (__CPROVER_is_fresh((j), sizeof(QXmppTransferJob)) && __CPROVER_is_fresh((j)->d, sizeof(QXmppTransferJobPrivate)) && __CPROVER_is_fresh((j)->d->iodevice, sizeof(QIODevice)) && ((j)->d->socksSocket == NULL || __CPROVER_is_fresh((j)->d->socksSocket, sizeof(QTcpSocket))))
-#define JOBLIST_OK(l) ((l).n >= 0 && JOB_OK((l).w) && JOB_OK((l).o))
+/* The two job objects of the list model and what they own are named globals (arbitrary contents: every harness havocs them),
+   so that contracts can speak about their fields without pointer chains. */
+QXmppTransferJob gw_job, go_job; QXmppTransferJobPrivate gw_priv, go_priv; QIODevice gw_dev, go_dev; QTcpSocket gw_sock, go_sock;
+QXmppTransferManagerPrivate g_mp; QXmppTransferManager g_mgr;
+#define PW gw_priv
+#define PO go_priv
+#define JOBS_WIRED (gw_job.d == &gw_priv && go_job.d == &go_priv && gw_priv.iodevice == &gw_dev && go_priv.iodevice == &go_dev && (gw_priv.socksSocket == NULL || gw_priv.socksSocket == &gw_sock) && (go_priv.socksSocket == NULL || go_priv.socksSocket == &go_sock))
+#define JOBLIST_OK(l) ((l).n >= 0 && (l).w == &gw_job && (l).o == &go_job && JOBS_WIRED)
+#define IS_JOB(j) (((j) == &gw_job || (j) == &go_job) && JOBS_WIRED)
+#define WORLD_OK (g_mgr.d == &g_mp && JOBLIST_OK(g_mp.jobs))
+/* Harness prologue: arbitrary contents for every object, then the pointers between them are *assigned* (CBMC resolves a
+   dereference through the values a pointer was assigned, not through assumptions about it).  socksSocket is NULL or the socket. */
+#define HAVOC_WORLD() do { __CPROVER_havoc_object(&gw_job); __CPROVER_havoc_object(&go_job); __CPROVER_havoc_object(&gw_priv); __CPROVER_havoc_object(&go_priv); \
+  __CPROVER_havoc_object(&gw_dev); __CPROVER_havoc_object(&go_dev); __CPROVER_havoc_object(&gw_sock); __CPROVER_havoc_object(&go_sock); __CPROVER_havoc_object(&g_mp); \
+  __CPROVER_havoc_object(&gh_ev); __CPROVER_havoc_object(&gh_wd); __CPROVER_havoc_object(&gh_devw); __CPROVER_havoc_object(&gh_devr); __CPROVER_havoc_object(&gh_cd); __CPROVER_havoc_object(&gh_term); __CPROVER_havoc_object(&gh_inv); \
+  gh_found_idx = nondet_int(); gh_job = nondet_bool() ? &gw_job : NULL; gh_wd.job = NULL; gh_devw.dev = NULL; gh_devr.dev = NULL; gh_cd.job = NULL; gh_term.job = NULL; gh_inv.obj = NULL; \
+  g_mgr.d = &g_mp; g_mp.jobs.w = &gw_job; g_mp.jobs.o = &go_job; gw_job.d = &gw_priv; go_job.d = &go_priv; gw_priv.iodevice = &gw_dev; go_priv.iodevice = &go_dev; \
+  gw_priv.socksSocket = nondet_bool() ? &gw_sock : NULL; go_priv.socksSocket = nondet_bool() ? &go_sock : NULL; } while (0)
+#define ANY_JOB() (nondet_bool() ? &gw_job : &go_job)
 /* receiver/sender invariant of XEP-0047: the job's counter is the number of blocks accepted (sent) so far modulo 2^16 */
-#define SEQ_INV(j) ((quint16)(j)->d->ibbSequence == (quint16)(j)->d->gh_blocks)
+#define SEQ_INV(p) ((quint16)(p).ibbSequence == (quint16)(p).gh_blocks)
 /* representation bounds: int counter below INT_MAX (the increment is signed), ghost count far from wrapping */
-#define SEQ_BOUNDS(j) (0 <= (j)->d->ibbSequence && (j)->d->ibbSequence < INT_MAX_ && (j)->d->gh_blocks < (1ull << 62))
-#define MATCH_SID(j, jid_, sid_) ((j)->d->direction == QXmppTransferJob_Direction__IncomingDirection && (j)->d->jid == (jid_) && (j)->d->sid == (sid_))
-#define MATCH_REQ(j, dir_, jid_, id_) ((j)->d->direction == (dir_) && (j)->d->jid == (jid_) && (j)->d->requestId == (id_))
+#define SEQ_BOUNDS(p) (0 <= (p).ibbSequence && (p).ibbSequence < INT_MAX_ && (p).gh_blocks < (1ull << 62))
+#define DONE_BOUNDS(p) (0 <= (p).done && (p).done < (1ll << 62))
+#define MATCH_SID(p, jid_, sid_) ((p).direction == QXmppTransferJob_Direction__IncomingDirection && (p).jid == (jid_) && (p).sid == (sid_))
+#define MATCH_REQ(p, dir_, jid_, id_) ((int)(p).direction == (int)(dir_) && (p).jid == (jid_) && (p).requestId == (id_))
 /* shorthands used by the handler contracts */
-#define JW (self->d->jobs.w)
-#define JO (self->d->jobs.o)
-#define ACCEPTABLE(j, blocks_before) ((j)->d->method == QXmppTransferJob_Method__InBandMethod && (j)->d->state == QXmppTransferJob_State__TransferState && iq->m_seq == (quint16)(blocks_before))
-#define UNCHANGED(j, seq0, blocks0, done0, hash0) ((j)->d->ibbSequence == (seq0) && (j)->d->gh_blocks == (blocks0) && (j)->d->done == (done0) && (j)->d->hash == (hash0))
+#define ACCEPTABLE(p, blocks_before) ((p).method == QXmppTransferJob_Method__InBandMethod && (p).state == QXmppTransferJob_State__TransferState && iq->m_seq == (quint16)(blocks_before))
+#define UNCHANGED(p, seq0, blocks0, done0, hash0) ((p).ibbSequence == (seq0) && (p).gh_blocks == (blocks0) && (p).done == (done0) && (p).hash == (hash0))
+#define INBAND_TRANSFERRING(p) ((p).method == QXmppTransferJob_Method__InBandMethod && (p).state == QXmppTransferJob_State__TransferState)
+/* the specification's own verdict on received data (DESIGN 6 C19): size matches if one was announced, hash matches if one was announced */
+#define DATA_OK(p) (((p).fileInfo.size == 0 || (p).done == (p).fileInfo.size) && ((p).fileInfo.hash == 0 || __CPROVER_uninterpreted_hash_result((p).hash) == (p).fileInfo.hash))
+#define VERDICT(p) (DATA_OK(p) ? QXmppTransferJob_Error__NoError : QXmppTransferJob_Error__FileCorruptError)
+#define FINISHED QXmppTransferJob_State__FinishedState
+#define KNOWN_INBAND ((gh_job == &gw_job && PW.method == QXmppTransferJob_Method__InBandMethod) || (gh_job == &go_job && PO.method == QXmppTransferJob_Method__InBandMethod))
+/* one step of the sender (ibbResponseReceived) on the job with private part p, object j, device dev; *0 = values before the call */
+#define SENDER_IDLE(p, blocks0, done0, seq0) (gh_sent == 0 && gh_dev_reads == 0 && gh_term_calls == 0 && (p).gh_blocks == (blocks0) && (p).done == (done0) && (p).ibbSequence == (seq0))
+#define SENDER_STEP(p, j, dev, state0, open0, blocks0, done0, bs0, seq0) ( \
+  (!((p).method == QXmppTransferJob_Method__InBandMethod && (state0) != FINISHED && (open0)) ? (SENDER_IDLE(p, blocks0, done0, seq0) && (p).state == (state0)) : \
+   iq->type == QXmppIq_Type__Result ? (gh_dev_reads == 1 && gh_dev_r_dev == &(dev) && gh_dev_r_max == (long long)(bs0) && gh_sent == 1 && gh_sent_to == (p).jid && gh_sent_sid == (p).sid && (p).requestId == gh_sent_id && \
+      (gh_dev_r_ret != 0 ? (gh_sent_kind == 2 && gh_sent_seq == (quint16)(blocks0) && gh_sent_payload == gh_dev_r_ret && (p).gh_blocks == (blocks0) + 1 && (p).done == (done0) + QBYTES_LEN(gh_dev_r_ret) && gh_term_calls == 0 && (p).state == QXmppTransferJob_State__TransferState) \
+                         : (gh_sent_kind == 3 && (p).gh_blocks == (blocks0) && (p).done == (done0) && gh_term_calls == 1 && gh_term_job == &(j) && gh_term_cause == QXmppTransferJob_Error__NoError && (p).state == FINISHED && (p).error == QXmppTransferJob_Error__NoError))) : \
+   iq->type == QXmppIq_Type__Error ? (gh_dev_reads == 0 && gh_sent == 1 && gh_sent_kind == 3 && gh_sent_to == (p).jid && gh_sent_sid == (p).sid && (p).requestId == gh_sent_id && (p).gh_blocks == (blocks0) && gh_term_calls == 1 && gh_term_job == &(j) && gh_term_cause == QXmppTransferJob_Error__ProtocolError && (p).state == FINISHED && (p).error == QXmppTransferJob_Error__ProtocolError) : \
+   (SENDER_IDLE(p, blocks0, done0, seq0) && (p).state == (state0))))
